@@ -17,6 +17,7 @@ var verifHarnesses = map[string]func(){
 	"VerifC04Tampered":              VerifC04Tampered,
 	"VerifC18CloseBlockedLoad":      VerifC18CloseBlockedLoad,
 	"VerifC13Concurrent":            VerifC13Concurrent,
+	"VerifC16Backfill":              VerifC16Backfill,
 	"VerifC17WritersAndReplication": VerifC17WritersAndReplication,
 	"VerifC13PendingQueue":          VerifC13PendingQueue,
 	"VerifC04ForeignChain":          VerifC04ForeignChain,
